@@ -920,6 +920,55 @@ func (c *Ctx) sortOnCopiesRule(rule string, sel func(*ssa.Function) bool) int {
 					fresh = false
 				}
 			}
+			// an unexported helper that sorts the list it is handed: every caller hands it a slice it made itself
+			if !fresh && f.Object() != nil && !f.Object().Exported() {
+				onlyParams := true
+				var prm *ssa.Parameter
+				for _, r := range eff.ProvenanceOf(arg, f) {
+					if r.Kind == flow.Fresh {
+						continue
+					}
+					q, isP := r.V.(*ssa.Parameter)
+					if r.Kind != flow.Param || !isP || q.Parent() != f {
+						onlyParams = false
+						continue
+					}
+					prm = q
+				}
+				if onlyParams && prm != nil {
+					idx := -1
+					for i, q := range f.Params {
+						if q == prm {
+							idx = i
+						}
+					}
+					if node := c.P.CallGraph().Nodes[f]; node != nil && idx >= 0 {
+						all, n := true, 0
+						for _, e := range node.In {
+							if e.Site == nil || c.isTestFunc(e.Caller.Func) {
+								continue
+							}
+							if e.Site.Common().StaticCallee() != f || idx >= len(e.Site.Common().Args) {
+								all = false
+								continue
+							}
+							n++
+							cf := e.Caller.Func
+							ceff := &flow.Effects{P: c.P, Funcs: map[*ssa.Function]bool{cf: true}, Roots: map[*ssa.Function]bool{cf: true}}
+							for _, r := range ceff.ProvenanceOf(e.Site.Common().Args[idx], cf) {
+								if r.Kind != flow.Fresh {
+									all = false
+								}
+							}
+							// … and does not look at it again afterwards (its order would have changed under it)
+							if usedAfter(e.Site.Common().Args[idx], e.Site) {
+								all = false
+							}
+						}
+						fresh = all && n > 0
+					}
+				}
+			}
 			c.S.Check(fresh, rule, load.FuncName(f)+":sort", c.pos(call.Pos()), "sorts a slice allocated in this function (a copy)", "a caller's slice is sorted in place: the declared order of sections / regions is lost")
 		}
 	}
@@ -1173,4 +1222,65 @@ func storesToCapturedCell(fv *ssa.FreeVar) []ssa.Value {
 		}
 	}
 	return out
+}
+
+
+// usedAfter: the value v (or, when v is a load of a local variable, that variable) is used by an instruction that can
+// execute after the call `site` (other than the call itself).
+func usedAfter(v ssa.Value, site ssa.CallInstruction) bool {
+	sb := site.Block()
+	idxOf := func(in ssa.Instruction) int {
+		for i, x := range in.Block().Instrs {
+			if x == in {
+				return i
+			}
+		}
+		return -1
+	}
+	si := idxOf(site.(ssa.Instruction))
+	after := func(u ssa.Instruction) bool {
+		if u == site.(ssa.Instruction) || u.Block() == nil {
+			return false
+		}
+		if _, dbg := u.(*ssa.DebugRef); dbg {
+			return false
+		}
+		if u.Block() == sb {
+			return idxOf(u) > si
+		}
+		// reachable from the call's block
+		seen := map[*ssa.BasicBlock]bool{}
+		stack := append([]*ssa.BasicBlock{}, sb.Succs...)
+		for len(stack) > 0 {
+			x := stack[len(stack)-1]
+			stack = stack[:len(stack)-1]
+			if seen[x] {
+				continue
+			}
+			seen[x] = true
+			if x == u.Block() {
+				return true
+			}
+			stack = append(stack, x.Succs...)
+		}
+		return false
+	}
+	vals := []ssa.Value{v}
+	if ld, ok := v.(*ssa.UnOp); ok && ld.Op == token.MUL {
+		if al, ok := ld.X.(*ssa.Alloc); ok {
+			vals = append(vals, al)
+		}
+	}
+	for _, x := range vals {
+		refs := x.Referrers()
+		if refs == nil {
+			continue
+		}
+		for _, u := range *refs {
+			if after(u) {
+				return true
+			}
+		}
+	}
+	return false
 }
